@@ -1,4 +1,5 @@
 import Marwood.Lemmas.StoreStr
+import Marwood.Lemmas.StoreUtf8
 /-!
 # C15 — string and character procedures index by character over all of Unicode
 
@@ -12,6 +13,11 @@ plain `List Char` operation at character positions (`cs[k]`, `cs.set k c`, `drop
 The contents theorems hold for every string over all of Unicode (every `Char`, any mix of 1–4 byte
 encodings); none of them can panic. The store theorems add identity and frame (`OnlyStr`).
 Case mapping is a parameter `T : CaseTable`.
+
+The last section ties the `List Char` model to the bytes a Rust `String` holds (`Utf8.encodeText`,
+RFC 3629): the model's code-point comparison is the bytewise comparison of the encodings
+(`utf8_order`), its byte offsets are lengths of encoded prefixes, its slices and patches are slices
+and patches of the bytes, and it panics exactly where `str::is_char_boundary` fails.
 -/
 namespace Marwood.Proofs.C15
 open Marwood Marwood.Store Marwood.Store.Outcome
@@ -363,6 +369,133 @@ theorem charFoldcase_eq_simple (T : CaseTable) (c : Char)
     | nil => rfl
     | cons u rest => cases rest <;> rfl
 
+/-- on ASCII the fast paths need no assumption on the table at all: `char-upcase` is Lean's own
+    (ASCII-only) `Char.toUpper`, `char-downcase`/`char-foldcase` its `Char.toLower` -/
+theorem charUpcase_ascii (T : CaseTable) (c : Char) (h : isAscii c = true) :
+    charUpcase T c = c.toUpper := by
+  simp only [charUpcase, h, if_true, asciiUpper_eq_core]
+
+theorem charFoldcase_ascii (T : CaseTable) (c : Char) (h : isAscii c = true) :
+    charFoldcase T c = c.toLower := by
+  simp only [charFoldcase, h, if_true, asciiLower_eq_core]
+
+/-! ## the bytes: UTF-8 order preservation, byte offsets, character boundaries
+
+`Utf8.encode` is RFC 3629 (and, byte for byte, Lean's `String.utf8EncodeChar`: `Utf8.encode_eq_core`);
+`Utf8.cmpBytes` is the lexicographic comparison of byte strings, i.e. `<[u8] as Ord>::cmp`, which is
+how Rust orders `str`. -/
+
+/-- (a) the encoding of a character is injective … -/
+theorem utf8_encode_injective {a b : Char} (h : Utf8.encode a = Utf8.encode b) : a = b :=
+  Utf8.encode_injective h
+
+/-- … and prefix-free: no encoding is a (proper) prefix of another -/
+theorem utf8_encode_prefix_free {a b : Char} (h : Utf8.encode a <+: Utf8.encode b) : a = b :=
+  Utf8.encode_prefix_free h
+
+/-- (b) characters are ordered as their encodings are, bytewise -/
+theorem utf8_char_order (a b : Char) : a.val < b.val ↔ Utf8.encode a < Utf8.encode b :=
+  Utf8.encode_lt_iff a b
+
+/-- (d) `Char.utf8Size`, the summand of every byte offset in the model, is the number of encoded bytes -/
+theorem utf8_encode_length (c : Char) : (Utf8.encode c).length = c.utf8Size := Utf8.encode_length c
+
+theorem utf8_byteLen (s : Text) : byteLen s = (Utf8.encodeText s).length :=
+  (Utf8.encodeText_length s).symm
+
+/-- the bytes are bytes, and `Utf8.encode` is Lean's own reference encoder `String.utf8EncodeChar`
+    (so the RFC 3629 table was not mistranscribed in a way Lean's `String` would notice) -/
+theorem utf8_encode_is_core (c : Char) :
+    Utf8.encode c = (String.utf8EncodeChar c).map UInt8.toNat ∧ ∀ b ∈ Utf8.encode c, b < 256 :=
+  ⟨Utf8.encode_eq_core c, Utf8.encode_byte_lt c⟩
+
+/-- (c) UTF-8 ORDER PRESERVATION: the bytewise comparison of the encodings of two texts is their
+    comparison by code points -/
+theorem utf8_order (s t : Text) :
+    Utf8.cmpBytes (Utf8.encodeText s) (Utf8.encodeText t) = Utf8.cmpPoints s t :=
+  Utf8.utf8_order s t
+
+/-- the same for the relations `<`, `=`, `≤` on lists (lexicographic in core Lean; on `List Char` by
+    `Char.val`): `string<?`, `string=?`, `string<=?`, and with the arguments exchanged `string>?`,
+    `string>=?` -/
+theorem utf8_order_rel (s t : Text) :
+    (Utf8.encodeText s < Utf8.encodeText t ↔ s < t) ∧
+    (Utf8.encodeText s = Utf8.encodeText t ↔ s = t) ∧
+    (Utf8.encodeText s ≤ Utf8.encodeText t ↔ s ≤ t) :=
+  ⟨Utf8.utf8_lt s t, Utf8.utf8_eq s t, Utf8.utf8_le s t⟩
+
+/-- the same with core Lean's definitions only (no Marwood definition in the statement): for Lean's
+    reference encoder `String.utf8EncodeChar` the lexicographic order of the `UInt8` lists is the
+    lexicographic order of the character lists, and the encoding of texts is injective -/
+theorem utf8_order_core (s t : List Char) :
+    (s.flatMap String.utf8EncodeChar < t.flatMap String.utf8EncodeChar ↔ s < t) ∧
+    (s.flatMap String.utf8EncodeChar = t.flatMap String.utf8EncodeChar ↔ s = t) :=
+  Utf8.utf8_order_core s t
+
+/-- the model's `cmpText` IS Rust's `str::cmp` (bytewise) on the encodings -/
+theorem cmpText_bytewise (s t : Text) :
+    cmpText s t = Utf8.cmpBytes (Utf8.encodeText s) (Utf8.encodeText t) := by
+  rw [Utf8.utf8_order, cmpText_eq_cmpPoints]
+
+/-- each comparison operator of the model decides the corresponding bytewise relation of the
+    encodings: `=` equality, `<` `>` strict lexicographic order, `<=` `>=` its reflexive closure -/
+theorem cmpOp_bytewise (op : CmpOp) (s t : Text) :
+    op.holds (cmpText s t) = true ↔ op.bytesRel (Utf8.encodeText s) (Utf8.encodeText t) := by
+  rw [cmpText_bytewise]
+  exact CmpOp.holds_cmpBytes op _ _
+
+/-- the n-ary string predicates (`string=? string<? string>? string<=? string>=?`, and the `-ci`
+    variants with `f` = case folding) are the conjunction over adjacent arguments of the *bytewise*
+    comparison of the UTF-8 encodings of the `f`-images — the comparison `string.rs` performs -/
+theorem stringComp_bytewise {s : Store} {args : List VCell} {ts : List Text} (f : Text → Text)
+    (op : CmpOp) (h : AllStr s args ts) (hne : args ≠ []) :
+    stringComp f op s args =
+      .ok (s, .bool (Spec.chainHolds
+        (fun x y => decide (op.bytesRel (Utf8.encodeText (f x)) (Utf8.encodeText (f y)))) ts)) := by
+  rw [stringComp_ok f op h hne]
+  have e : (fun x y => op.holds (cmpText (f x) (f y))) =
+      (fun x y => decide (op.bytesRel (Utf8.encodeText (f x)) (Utf8.encodeText (f y)))) := by
+    funext x y
+    rw [Bool.eq_iff_iff, cmpOp_bytewise, decide_eq_true_iff]
+  rw [e]
+
+/-- the byte offset `char_indices().nth(k)` yields is the number of bytes the first `k` characters
+    occupy in the encoding -/
+theorem nthOffset_eq_encoded (cs : Text) {k : Nat} (h : k < cs.length) :
+    nthOffset cs k 0 = some ((Utf8.encodeText (cs.take k)).length, cs[k]) := by
+  rw [nthOffset_eq, dif_pos h, Utf8.encodeText_length]
+
+theorem charOffset_eq_encoded (cs : Text) {k : Nat} (h : k < cs.length) :
+    charOffset cs k = .ok (Utf8.encodeText (cs.take k)).length := by
+  rw [charOffset_ok h, Utf8.encodeText_length]
+
+theorem charOffsetInclusive_eq_encoded (cs : Text) {k : Nat} (h : k < cs.length) :
+    charOffsetInclusive cs k = .ok (Utf8.encodeText (cs.take (k + 1))).length := by
+  rw [charOffsetInclusive_ok h, Utf8.encodeText_length]
+
+/-- `&s[a..b]` in the model: succeeds exactly when `a ≤ b` and both offsets pass
+    `str::is_char_boundary` on the bytes (otherwise the modelled panic), and then returns the text
+    whose bytes are bytes `a..b` -/
+theorem strSlice_on_bytes (cs : Text) (a b : Nat) :
+    ((∃ r, strSlice cs a b = .ok r) ↔
+      a ≤ b ∧ Utf8.isCharBoundary (Utf8.encodeText cs) a = true ∧
+        Utf8.isCharBoundary (Utf8.encodeText cs) b = true) ∧
+    (∀ r, strSlice cs a b = .ok r →
+      Utf8.encodeText r = ((Utf8.encodeText cs).drop a).take (b - a)) :=
+  ⟨strSlice_ok_iff cs a b, fun _ h => strSlice_bytes h⟩
+
+/-- `s.replace_range(a..b, new)` in the model: the same panic condition, and the resulting bytes are
+    the bytes before `a`, the bytes of `new`, the bytes from `b` on -/
+theorem replaceRange_on_bytes (cs new : Text) (a b : Nat) :
+    ((∃ r, replaceRange cs a b new = .ok r) ↔
+      a ≤ b ∧ Utf8.isCharBoundary (Utf8.encodeText cs) a = true ∧
+        Utf8.isCharBoundary (Utf8.encodeText cs) b = true) ∧
+    (∀ r, replaceRange cs a b new = .ok r →
+      Utf8.encodeText r =
+        (Utf8.encodeText cs).take a ++ Utf8.encodeText new ++ (Utf8.encodeText cs).drop b) :=
+  ⟨replaceRange_ok_iff cs new a b, fun _ h => replaceRange_bytes h⟩
+
+
 /-! ## the hypotheses are satisfiable: a concrete store
 
 `ptr 0` is the string `"aλ€🐶"` (1-, 2-, 3- and 4-byte characters), `ptr 1` the empty string,
@@ -430,5 +563,17 @@ example := integerToChar_err (s := exStore) (v := .num 0x110000) rfl (Or.inr (by
 example := integerToChar_err (s := exStore) (v := .num (-1)) rfl (Or.inl (by decide))
 example := charToInteger_ok (s := exStore) (v := .ptr 3) rfl
 example := integerToChar_charToInteger exStore '🐶'
+example := charUpcase_ascii ⟨fun _ => [], fun _ => [], fun _ => false, fun _ => false, fun _ => false, fun _ => false, fun _ => false⟩ 'q' (by decide)
+
+-- the bytes of "aλ€🐶": 61 | CE BB | E2 82 AC | F0 9F 90 B6
+example : Utf8.encodeText exText = [0x61, 0xCE, 0xBB, 0xE2, 0x82, 0xAC, 0xF0, 0x9F, 0x90, 0xB6] := by decide
+example : Utf8.cmpBytes (Utf8.encodeText ['€']) (Utf8.encodeText ['🐶']) = .lt := by decide
+-- U+FFFD < U+1F436 by code point and bytewise in UTF-8 (EF BF BD < F0 9F 90 B6); in UTF-16 code units the order is the opposite
+example := cmpOp_bytewise .lt ['\uFFFD'] ['🐶']
+example := nthOffset_eq_encoded exText (k := 3) (by decide)
+example : Utf8.isCharBoundary (Utf8.encodeText exText) 3 = true := by decide
+example : Utf8.isCharBoundary (Utf8.encodeText exText) 4 = false := by decide
+example := stringComp_bytewise (s := exStore) (args := [.ptr 1, .ptr 0, .ptr 0]) id .le
+  (.cons ex_empty (.cons ex_str (.cons ex_str .nil))) (by simp)
 
 end Marwood.Proofs.C15
